@@ -136,6 +136,10 @@ func c12Modules() *tengo.ModuleMap {
 		"flags": &tengo.Array{Value: []tengo.Object{tengo.TrueValue, tengo.FalseValue, tengo.UndefinedValue}},
 		"deep":  &tengo.ImmutableArray{Value: []tengo.Object{&tengo.Map{Value: map[string]tengo.Object{"t": tengo.TrueValue, "u": tengo.UndefinedValue}}, &tengo.Error{Value: tengo.FalseValue}}},
 		"empty": &tengo.Array{Value: []tengo.Object{}}, "blob": &tengo.Bytes{Value: []byte{0, 255}}, "ch": &tengo.Char{Value: 'x'}, "fl": &tengo.Float{Value: 10}}}})
+	// a data-only module object that carries a module name of its own but is not
+	// a *BuiltinModule of the module map (an application-defined Importable)
+	mods.Add("cfg_named", objModule{&tengo.ImmutableMap{Value: map[string]tengo.Object{"__module_name__": &tengo.String{Value: "cfg_named"},
+		"name": &tengo.String{Value: "gamma"}, "n": &tengo.Int{Value: 10}, "on": tengo.TrueValue, "list": &tengo.ImmutableArray{Value: []tengo.Object{&tengo.Int{Value: 1}, tengo.UndefinedValue}}}}})
 	// (only maps: RemoveDuplicates rejects any other top-level constant type
 	// with an explicit "unsupported top-level constant type" panic)
 	return mods
@@ -144,6 +148,7 @@ func c12Modules() *tengo.ModuleMap {
 var dedupProgs = []Prog{
 	{"two-object-modules", `x := import("cfg_a"); y := import("cfg_b"); out := [x.name, y.name, x.n + y.n + 10, import("cfg_a").name, import("cfg_b").name]`, false},
 	{"object-module-singletons", `y := import("cfg_b"); out := [y.flags[0] == true, y.flags[1] == false, y.flags[2] == undefined, y.deep[0].t == true, y.deep[0].u == undefined, y.deep[1].value == false, is_undefined(y.flags[2]), y.flags[0] ? 1 : 2, len(y.empty), y.blob, y.ch, y.fl, c == y.flags[0]]`, false},
+	{"named-object-module", `z := import("cfg_named"); w := import("cfg_named"); out := [z.name, z.n + a, w.n, z.on == true, z.list[0], is_undefined(z.list[1]), import("cfg_a").n]`, false},
 	{"builtin-modules", `m := import("math"); t := import("text"); out := [m.abs(-2.5), m.pi, t.repeat("ab", 2), t.trim_space(" x "), import("math").max(a, b), m.maxInt64 == 9223372036854775807]`, false},
 	{"source-modules-twice", `f := import("m2"); g := import("m2"); out := [f(a), g(b), import("m").f(10), import("m").v]`, false},
 	{"object-module-error-position", `y := import("cfg_b")
